@@ -109,7 +109,7 @@ theorem clean_blkAll {d : Db} {P : Smp → Prop} (h : d.blkAll P) : d.cleanTombs
 theorem cleantomb_preserves {d : Db} {r : Ref} (hG : Good d r) : Good d.cleanTombstones r := by
   have hI := hG.inv
   have hS := hG.sim
-  refine ⟨⟨?_, ?_⟩, hG.lastVis.congr rfl, ⟨hS.sinc, ?_, hS.app⟩, hG.ooo, hG.cr⟩
+  refine ⟨⟨?_, ?_⟩, hG.lastOk.congr rfl (fun p h => h), ⟨hS.sinc, ?_, hS.app⟩, hG.ooo, hG.cr⟩
   · refine
       { idxNodup := hI.idxNodup, physInc := hI.physInc, physNe := hI.physNe, physLo := hI.physLo,
         physHi := hI.physHi, physMax := hI.physMax, tombHi := hI.tombHi, blkInc := ?_, blkRange := ?_,
